@@ -1709,8 +1709,10 @@ class AggregateBase(UnitsManaged, Saveable, OpenSystem):
                     elif (self.which_band[i] > 2) and sbi_for_higher_ex:
                         pass
 
+                # (the matrix was derived from the environments of the 
+                # monomers: it is derived again by the next build, only 
+                # a matrix set by the user is kept)
                 self._has_system_bath_interaction = True
-                self._has_egcf_matrix = True
 
         # if all needed for system-bath interaction is present
         # we can construct the SystemBathInteraction object
